@@ -2,7 +2,7 @@
 import ast
 from ..affine import Lin, decide
 from ..front import dotted, const_value, unparse, walk_no_nested, parent_map, kwarg
-from ..core import holds, violation, unrecognised
+from ..core import holds, violation, unrecognised, named
 from ..flow import AbsInt
 from ..rules import decide_states, subscript_bounds_obligations, pure_params, Must, call_matcher
 from ..axes import chain, apply_perm, PERMUTERS
@@ -266,7 +266,7 @@ def walk_rules(repo):
     if not draws:
         out.append(unrecognised("R-RNG", fs, role, "no random draw in the walk"))
     elif not seeds or any(any(d is x for x in ast.walk(b_)) for b_ in body[:body.index(seeds[0])] for d in draws):
-        out.append(violation("R-RNG", fs, role, "numpy.random.seed(random_state) does not precede the first draw: draws at %s are unseeded" % fs.line(draws[0]), draws[0]))
+        out.append(named("R-RNG", fs, role, "numpy.random.seed(random_state) does not precede the first draw: draws at %s are unseeded" % fs.line(draws[0]), draws[0]))
     else:
         out.append(holds("R-RNG", fs, role, "the seed is a top-level statement before every draw; %d draw(s) follow" % len(draws), seeds[0]))
     role = "the random permutation is applied to the strict prefix of each successor list (the last outgoing edge stays last)"
